@@ -11,7 +11,7 @@ func init() {
 	register(&propCheck{
 		id:    "C03",
 		level: "other",
-		explanation: "Static necessary conditions of the unzip resource limits: each configured limit is compared at a place where the comparison can bound what it is meant to bound, on every path. All rules are evaluated on the control-flow graph pruned under 'limits apply' (the false successor of every branch on limits.Apply() — and, for depth, on GetMaxDepth() >= 0 — is removed: with NoLimits nothing is promised). (W1) the copy of an entry into the destination is preceded by the comparison of its declared size with GetMaxFileSize() whose failing side is a 'too large' error exit, and the number of bytes copied is that declared size; zip.NewReader is preceded by the archive-size comparison; (W2) in the entry loop every cyclic path that increments the file counter or the byte total also passes the comparison of that counter with GetMaxFileCount()/GetMaxTotalSize(); (W3) the totals returned by the nested extraction are added to the parent's counters, the same limits object is handed down and the depth strictly grows on the recursive cycle; unzip returns the counters' values; (W4) every entry creation in the loop is preceded by the depth comparison. Decided on SSA; nothing is executed. Not decided: the arithmetic (off-by-one of > vs >=, uint64 wrap), lying headers (relies on io.CopyN and archive/zip's checksum), what is on disk when an error is returned.",
+		explanation: "Static necessary conditions of the unzip resource limits: each configured limit is compared at a place where the comparison can bound what it is meant to bound, on every path. All rules are evaluated on the control-flow graph pruned under 'limits apply' (the false successor of every branch on limits.Apply() — and, for depth, on GetMaxDepth() >= 0 — is removed: with NoLimits nothing is promised). (W1) the copy of an entry into the destination is preceded by the comparison of its declared size with GetMaxFileSize() whose failing side is a 'too large' error exit, and the number of bytes copied is that declared size; zip.NewReader is preceded by the archive-size comparison; (W2) in the entry loop every cyclic path that increments the file counter or the byte total also passes the comparison of that counter with GetMaxFileCount()/GetMaxTotalSize(); (W3) the totals returned by the nested extraction are added to the parent's counters, the same limits object is handed down and the depth strictly grows on the recursive cycle; unzip returns the counters' values; (W4) every entry creation in the loop is preceded by the depth comparison; (W5) lying headers: the copy is bounded by the declared size, so archive/zip only gets to compare the header's size and checksum with the data if the entry's reader is read on afterwards — on every path from the successful copy to a successful return the reader is read once more and the outcome is examined. Decided on SSA; nothing is executed. Not decided: the arithmetic (off-by-one of > vs >=, uint64 wrap), what archive/zip verifies at the end of an entry (library contract), what is on disk when an error is returned.",
 		run:   runC03,
 		assumptions: []string{
 			"safeio.CopyNWithContext writes at most the number of bytes it is given (io.CopyN)",
@@ -140,6 +140,7 @@ func (c *Ctx) errorKindOnEdge(f *ssa.Function, b *ssa.BasicBlock, kind string) (
 
 func runC03(c *Ctx) {
 	c.rule("W1", "per-file bound precedes the write (declared size vs GetMaxFileSize, 'too large' on the failing side, bytes copied = declared size); archive size checked before zip.NewReader", 2)
+	c.rule("W5", "an archive whose headers contradict its data is refused: after the bounded copy of an entry its reader is read on (the zip reader compares size and checksum with the header only at the end of the entry), and an error or a surplus byte is an error exit, on every path to a successful return", 1)
 	c.rule("W2", "every cyclic path of the entry loop that increments a running total passes that total's comparison with its limit", 3)
 	c.rule("W3", "nested totals are added to the parent's counters; the same limits and a strictly larger depth go down the recursion; unzip returns its counters", 4)
 	c.rule("W4", "every entry creation in the loop (and the opening of the archive) is preceded by the depth comparison", 3)
@@ -158,12 +159,22 @@ func runC03(c *Ctx) {
 	// ---- W1 -----------------------------------------------------------------
 	c.c03Guarded(uzf, "W1", "GetMaxFileSize", false, func(in ssa.Instruction) bool {
 		cl, ok := in.(*ssa.Call)
-		return ok && (strings.HasSuffix(calleeFull(&cl.Call), "safeio.CopyNWithContext") || strings.HasSuffix(calleeFull(&cl.Call), "safeio.CopyDataWithContext") || calleeFull(&cl.Call) == "io.Copy" || calleeFull(&cl.Call) == "io.CopyN")
+		if !ok {
+			return false
+		}
+		n := calleeFull(&cl.Call)
+		if n == "io.Copy" || n == "io.CopyN" {
+			// draining into io.Discard writes nothing
+			return !isGlobalLoad(cl.Call.Args[0], "Discard")
+		}
+		return strings.HasSuffix(n, "safeio.CopyNWithContext") || strings.HasSuffix(n, "safeio.CopyDataWithContext")
 	}, "copy into the destination", true)
 	c.c03Guarded(nzr, "W1", "GetMaxFileSize", false, func(in ssa.Instruction) bool {
 		cl, ok := in.(*ssa.Call)
 		return ok && calleeFull(&cl.Call) == "archive/zip.NewReader"
 	}, "zip.NewReader", false)
+
+	c.c03EndOfEntry(uzf)
 
 	// ---- W2 -----------------------------------------------------------------
 	c.c03Totals(unzip)
@@ -686,4 +697,100 @@ func (c *Ctx) c03Accounted(unzip, uzf *ssa.Function) {
 func isReturnOK(f *ssa.Function, in ssa.Instruction) bool {
 	r, ok := in.(*ssa.Return)
 	return ok && !isErrorExit(f, r)
+}
+
+// c03EndOfEntry (W5). The copy is bounded by the size the header declares (W1), so it never reaches the end of the
+// entry's stream: archive/zip compares the declared size and checksum with the data only when a Read hits the end,
+// and reports surplus data only when a Read goes past the declared size. Unless the entry's reader is read once more
+// after the copy, an entry holding more data than declared is silently truncated and a wrong checksum goes unnoticed.
+func (c *Ctx) c03EndOfEntry(uzf *ssa.Function) {
+	key := fname(uzf) + "/end-of-entry"
+	var open, cp *ssa.Call
+	allInstrs(uzf, func(in ssa.Instruction) {
+		if cl, ok := in.(*ssa.Call); ok {
+			n := calleeFull(&cl.Call)
+			if n == "(*archive/zip.File).Open" {
+				open = cl
+			}
+			if strings.HasSuffix(n, "safeio.CopyNWithContext") || n == "io.CopyN" {
+				cp = cl
+			}
+		}
+	})
+	if open == nil || cp == nil {
+		c.ok("W5", key, c.pos(uzf.Pos()), "no bounded copy from an entry reader in this function (the copy reads to the end of the entry)")
+		return
+	}
+	isEntryReader := func(v ssa.Value) bool {
+		for _, l := range sources(v, deriveOpts{through: func(n string) bool {
+			return strings.Contains(n, "safeio.NewContextualReader") || n == "bufio.NewReader" || n == "io.TeeReader"
+		}}) {
+			if ex, ok := l.(*ssa.Extract); ok && ex.Tuple == ssa.Value(open) && ex.Index == 0 {
+				return true
+			}
+		}
+		return false
+	}
+	// a probe: a read from the entry's reader after the copy — Read, or a draining helper
+	var probes []*ssa.Call
+	allInstrs(uzf, func(in ssa.Instruction) {
+		cl, ok := in.(*ssa.Call)
+		if !ok || cl == cp {
+			return
+		}
+		if cl.Call.IsInvoke() && cl.Call.Method.Name() == "Read" && isEntryReader(cl.Call.Value) {
+			probes = append(probes, cl)
+			return
+		}
+		switch n := calleeFull(&cl.Call); {
+		case n == "io.Copy" || n == "io.ReadAll" || n == "io.ReadFull" || n == "io.CopyN" || strings.HasSuffix(n, "safeio.ReadAll") || strings.HasSuffix(n, "safeio.ReadAtMost") || strings.HasSuffix(n, "safeio.CopyDataWithContext"):
+			for _, a := range cl.Call.Args {
+				if isEntryReader(a) {
+					probes = append(probes, cl)
+				}
+			}
+		}
+	})
+	isProbe := func(i ssa.Instruction) bool {
+		for _, p := range probes {
+			if ssa.Instruction(p) == i {
+				return true
+			}
+		}
+		return false
+	}
+	// every path from the successful copy to a successful return passes a probe
+	cpErr := errResultsOf(cp)
+	esc := pathPruned(uzf, cp, isProbe, func(i ssa.Instruction) bool {
+		r, ok := i.(*ssa.Return)
+		return ok && !isErrorExit(uzf, r)
+	}, func(b *ssa.BasicBlock, k int) bool {
+		ifi, ok := b.Instrs[len(b.Instrs)-1].(*ssa.If)
+		if !ok {
+			return false
+		}
+		x, nilSucc, ok := nilTest(ifi)
+		if !ok || len(cpErr) == 0 {
+			return false
+		}
+		return sameValue(x, cpErr[0]) && k == 1-nilSucc
+	})
+	if esc != nil {
+		c.violate("W5", key, c.ipos(cp), "after the copy of the declared number of bytes a successful return ("+c.ipos(esc)+") is reached without the entry's reader having been read any further: the zip reader never compares the header's size and checksum with the data, an entry holding more data than its header declares is silently truncated and a wrong checksum goes unnoticed — no error for an archive whose headers contradict its data")
+		return
+	}
+	// the outcome of each probe is looked at
+	for _, p := range probes {
+		used := false
+		for _, r := range *p.Referrers() {
+			if _, isDbg := r.(*ssa.DebugRef); !isDbg {
+				used = true
+			}
+		}
+		if !used {
+			c.violate("W5", key, c.ipos(p), "the outcome of reading on after the copy is discarded")
+			return
+		}
+	}
+	c.ok("W5", key, c.ipos(probes[0]), "the entry's reader is read on after the bounded copy and the outcome is examined before success")
 }
